@@ -30,7 +30,7 @@ EXTRA_GAPS = [("1e-14", 1e-14), ("1e-13", 1e-13), ("1e-11", 1e-11), ("1e-10", 1e
 
 
 def spectra(gaps=None):
-    """Labelled eigenvalue patterns (ascending); 22 with the default 7 gaps.
+    """Labelled eigenvalue patterns (ascending); 30 with the default 7 gaps.
     Returns list of (label, (l0,l1,l2), kind) with kind in spd / psd / indef."""
     gaps = GAPS if gaps is None else gaps
     out = [("distinct", (0.5, 1.3, 3.1), "spd")]
@@ -39,6 +39,9 @@ def spectra(gaps=None):
     for gl, d in gaps:                       # (a, b, b(1+d)): upper pair (nearly) repeated
         out.append(("abb:%s" % gl, (1.0, 2.0, 2.0 * (1.0 + d)), "spd"))
     out.append(("aaa", (1.5, 1.5, 1.5), "spd"))
+    for gl, d in gaps:                       # all three nearly equal (C = I + 2 strain at tiny strain); added after a
+        if d > 0.0:                          # seeded change of the spherical-tensor threshold went undetected
+            out.append(("aaa:%s" % gl, (1.5, 1.5 * (1.0 + d), 1.5 * (1.0 + 2.0 * d)), "spd"))
     out.append(("rank2", (0.0, 1.0, 2.0), "psd"))
     out.append(("rank1", (0.0, 0.0, 1.0), "psd"))
     out.append(("rank0", (0.0, 0.0, 0.0), "psd"))
